@@ -322,6 +322,9 @@ class Bag(Factory, Container):
         return f"<Bag size={len(self.values)} range={self.range}>"
 
     def __eq__(self, other):
+        if not isinstance(other, Bag):
+            return False
+
         if len(self.values) != len(other.values):
             return False
 
